@@ -288,6 +288,8 @@ def oracle_fresh_data(ctx: Ctx, case):
         ctx.close(stats.approx_kl, 0.0, "C08/fresh-data-approx-kl-nonzero", atol=1e-9, tags={"algo": "PPO"})
         A = np.asarray(buf.advantages, np.float64)
         if normalize:
+            if A.std() <= 1e-9 * max(1.0, float(np.abs(A).max())):
+                continue  # constant advantages: (A - mean)/(0 + eps) is rounding noise amplified by 1/eps, no reference value
             A = (A - A.mean()) / (A.std() + np.finfo(np.float64).eps)
         ctx.close(stats.policy_loss, -A.mean(), "C08/fresh-data-surrogate-not-minus-mean-advantage", rtol=1e-9, atol=1e-9, tags={"algo": "PPO"})
     a = np.asarray(buf.actions, np.float64)
